@@ -85,9 +85,10 @@ fn wear_in<I: Interface>(rx: &mut I, remaining: &dyn Fn() -> usize) {
     while remaining() > 0 && guard < 200000 { let _ = catch_unwind(AssertUnwindSafe(|| rx.try_get_packet())); guard += 1; }
 }
 // duplex: before the first poll the receiving node itself transmits a small packet, its transmitter answering would-block a few times
-pub fn poll_tokens_duplex(link: u64, toks: &[u64], duplex: bool) -> L { poll_tokens_opts(link, toks, duplex, false) }
-pub fn poll_tokens_opts(link: u64, toks: &[u64], duplex: bool, veteran: bool) -> L {
-    let out_pkt = Packet { is_error: false, device_address: 0x4242, data: vec![1, 2, 3, 4, 5, 6, 7, 8, 9] };
+pub fn poll_tokens_duplex(link: u64, toks: &[u64], duplex: bool) -> L { poll_tokens_opts(link, toks, duplex, false, None) }
+pub fn poll_tokens_opts(link: u64, toks: &[u64], duplex: bool, veteran: bool, echo: Option<Packet>) -> L {
+    // what the receiving node itself transmits before polling: a fixed packet, or (echo) a copy of a packet it is about to receive
+    let out_pkt = echo.unwrap_or(Packet { is_error: false, device_address: 0x4242, data: vec![1, 2, 3, 4, 5, 6, 7, 8, 9] });
     let mut obs: L = Vec::with_capacity(toks.len() * 8 + 256);
     match link {
         0 => {
@@ -344,7 +345,8 @@ pub fn exec_lnk(case: &[u64]) -> L {
         Some(toks)
     }));
     let duplex = flags & 1 != 0;
-    match built { Ok(Some(toks)) => poll_tokens_opts(link, &toks, duplex, flags & 8 != 0), _ => vec![3] }
+    let echo = if flags & 16 != 0 { pkts.last().cloned() } else { None };
+    match built { Ok(Some(toks)) => poll_tokens_opts(link, &toks, duplex || echo.is_some(), flags & 8 != 0, echo), _ => vec![3] }
 }
 pub fn gen_lnk(r: &mut Rng, thorough: bool, cx: &mut Ctx) {
     for link in 0..3u64 {
@@ -364,7 +366,7 @@ pub fn gen_lnk(r: &mut Rng, thorough: bool, cx: &mut Ctx) {
                 show_packet(&p, &mut l); prevp = Some(p);
             }
             // flags: 1 = full duplex (the receiving node transmits before it polls); serial port: 2 = EINTR inside frames, 4 = other 'no data' read failures
-            let fl = (if k % 5 == 3 { 1 } else { 0 }) | (if link == 2 && k % 7 == 2 { 2 } else { 0 }) | (if link != 1 && k % 7 == 5 { 4 } else { 0 });
+            let fl = (if k % 5 == 3 { 1 } else { 0 }) | (if link == 2 && k % 7 == 2 { 2 } else { 0 }) | (if link != 1 && k % 7 == 5 { 4 } else { 0 }) | (if k % 9 == 4 { 16 } else { 0 });     // 16: the node has just sent a copy of the last packet it will receive
             if fl != 0 { l.push(fl); }
             cx.emit(&l);
         }
@@ -399,7 +401,10 @@ pub fn exec_snd(case: &[u64]) -> L {
     let prelude: Option<Packet> = match variant {
         0 => None, 1 | 4 => Some(p.clone()), 2 => { let mut q = p.clone(); q.is_error = !q.is_error; Some(q) }
         _ => { let mut q = p.clone(); q.data.reverse(); q.data.push(0x5a); q.data.extend_from_slice(&[7; 9]); Some(q) } };
-    let failing = variant >= 4;
+    let failing = variant == 4 || variant == 5;
+    // ... or (p.data.len() % 3 == 1) the receiving side of the same object has a half-received multi-frame packet pending when the send is made
+    let pending_rx = p.data.len() % 3 == 1;
+    let partial: Packet = Packet { is_error: p.is_error, device_address: p.device_address ^ 0x0101, data: vec![0x33; 20] };
     // ... or (marked case: address 0xbeef, 3 payload bytes) a long life: 17 packets of 4096 frames each, 69632 frames (a u16 counter wraps)
     let heavy = p.device_address == 0xbeef && p.data.len() == 3;
     let preludes: Vec<Packet> = if heavy { (0..17u8).map(|i| Packet { is_error: i % 2 == 0, device_address: 0x100 + i as u16, data: vec![i; 28672] }).collect() } else { prelude.into_iter().collect() };
@@ -409,6 +414,7 @@ pub fn exec_snd(case: &[u64]) -> L {
             if failing { st.borrow_mut().ans = vec![1, 0, 2].into_iter().collect(); }       // would-block, sent, then a displaced-frame report
             let mut tx = Can::new(ross_protocol::interface::can::verif_sim::Can::new(CanDev(st.clone())));
             for q in preludes.iter() { let _ = catch_unwind(AssertUnwindSafe(|| tx.try_send_packet(q))); st.borrow_mut().tx.clear(); }
+            if pending_rx { if let Some(f) = frames_of(&partial).first() { let mut t = vec![]; frame_tokens(0, f, &mut t); st.borrow_mut().rx = can_tokens(&t); let _ = catch_unwind(AssertUnwindSafe(|| tx.try_get_packet())); st.borrow_mut().rx.clear(); } }
             { let mut s = st.borrow_mut(); s.tx.clear(); s.spins = 0; s.accept_all = false; s.ans = ans.iter().map(|x| *x as u8).collect(); }
             let r = catch_unwind(AssertUnwindSafe(|| tx.try_send_packet(&p)));
             o.push(match r { Ok(Ok(())) => 0, Ok(Err(InterfaceError::CanError(CanError::MailboxFull))) => 1, Ok(Err(_)) => 9, Err(pl) => if pl.is::<Hang>() { 4 } else { 5 } });
@@ -420,6 +426,7 @@ pub fn exec_snd(case: &[u64]) -> L {
             if failing { st.borrow_mut().ans = vec![0, 1, 2, 0, 2].into_iter().collect(); }       // two bytes are lost to hard write errors
             let mut tx = Usart::new(UsartDev(st.clone()));
             for q in preludes.iter() { let _ = catch_unwind(AssertUnwindSafe(|| tx.try_send_packet(q))); st.borrow_mut().tx.clear(); }
+            if pending_rx { if let Some(f) = frames_of(&partial).first() { let mut t = vec![]; frame_tokens(1, f, &mut t); st.borrow_mut().rx = t.iter().map(|x| *x as u16).collect(); let _ = catch_unwind(AssertUnwindSafe(|| tx.try_get_packet())); st.borrow_mut().rx.clear(); } }
             { let mut s = st.borrow_mut(); s.tx.clear(); s.spins = 0; s.accept_all = false; s.ans = ans.iter().map(|x| *x as u8).collect(); }
             let r = catch_unwind(AssertUnwindSafe(|| tx.try_send_packet(&p)));
             o.push(match r { Ok(Ok(())) => 0, Ok(Err(_)) => 9, Err(pl) => if pl.is::<Hang>() { 4 } else { 5 } });
@@ -430,6 +437,7 @@ pub fn exec_snd(case: &[u64]) -> L {
             if failing { let mut s = st.lock().unwrap(); if p.data.len() % 2 == 0 { s.ans = vec![1, 1, 3, 0x1001].into_iter().collect(); } else { s.flush_ok = false; s.flush_kind = 0; } }   // a write error after a few bytes, or a failing flush
             let mut tx = Serial::new(Box::new(SerDev(st.clone())));
             for q in preludes.iter() { let _ = catch_unwind(AssertUnwindSafe(|| tx.try_send_packet(q))); st.lock().unwrap().tx.clear(); }
+            if pending_rx { if let Some(f) = frames_of(&partial).first() { let mut t = vec![]; frame_tokens(2, f, &mut t); st.lock().unwrap().rx = t.iter().map(|x| *x as u16).collect(); let _ = catch_unwind(AssertUnwindSafe(|| tx.try_get_packet())); st.lock().unwrap().rx.clear(); } }
             { let mut s = st.lock().unwrap(); s.tx.clear(); s.spins = 0; s.flush_ok = false; s.flush_kind = flush_kind; s.ans = ans.iter().map(|x| *x as u32).collect(); }
             let r = catch_unwind(AssertUnwindSafe(|| tx.try_send_packet(&p)));
             o.push(match r {
